@@ -551,6 +551,23 @@ func check(args []string) {
 			if reported >= 2 {
 				break
 			}
+			// The shrinker keeps the violation class, and known findings are matched by
+			// class (the shape of the mismatch) and detail pattern: a violation that already
+			// matches an open finding is announced once and not minimised again.
+			if kf := matchKnown(findings, prop, c, r.Violation.Detail); kf != nil {
+				line := fmt.Sprintf("KNOWN-FINDING: property=%s %s [%s]", prop, kf.What, kf.ID)
+				dup := false
+				for _, l := range knownLines {
+					if l == line {
+						dup = true
+					}
+				}
+				if !dup {
+					knownLines = append(knownLines, line)
+					fmt.Println(line)
+				}
+				break
+			}
 			orig := filepath.Join(root, "replays", fmt.Sprintf("%s-%d-orig.json", prop, r.Seed))
 			os.WriteFile(orig, indent(r.Program), 0o644)
 			min := filepath.Join(root, "replays", fmt.Sprintf("%s-%d.json", prop, r.Seed))
